@@ -129,6 +129,30 @@ def _odd(m):
         return True
 
 
+_CIS = []
+
+
+def _cis_sign():
+    """value of _translate_cis_trans_sign for a cis pair, calibrated once on F/C=C\\F (cis by the SMILES definition)"""
+    if not _CIS:
+        from chython import smiles
+        _CIS.append(smiles('F/C=C\\F')._translate_cis_trans_sign(2, 3, 1, 4))
+    return _CIS[0]
+
+
+def _geometric_cis(a, n, k, x, y):
+    """True: x (on n) and y (on k) lie on the same side of the axis n-k in the drawing; None if not decidable at record precision"""
+    def p(t):
+        return round(a.atom(t).x, 4), round(a.atom(t).y, 4)
+    (nx, ny), (kx, ky), (xx, xy), (yx, yy) = p(n), p(k), p(x), p(y)
+    ax, ay = kx - nx, ky - ny
+    c1 = ax * (xy - ny) - ay * (xx - nx)
+    c2 = ax * (yy - ky) - ay * (yx - kx)
+    if abs(c1) < 1e-2 or abs(c2) < 1e-2:
+        return None
+    return (c1 > 0) == (c2 > 0)
+
+
 def _precision_stable(a):
     """the wedge signs must not depend on digits the record formats do not store (MDL: 4 decimals, MRV: 4 decimals of 2x)"""
     want = sorted(a._wedge_map)
@@ -161,16 +185,15 @@ def compare_mol(a, b, rec, label, coords):
         coords = False
     if coords:
         # cis/trans is re-derived from the coordinates by the reader: claimed only if the layout encodes the label
-        probe = a.copy()
-        for *_, bb in probe.bonds():
-            bb._stereo = None
-        probe.flush_cache()
-        probe.calc_labels()
-        try:
-            probe.calculate_cis_trans_from_2d()
-        except Exception:
-            probe = None
-        drawn = probe is not None and all(probe.bond(x, y).stereo == bb.stereo for x, y, bb in a.bonds() if bb.stereo is not None)
+        # independent of the library's own 2D perception: side of each reference substituent relative to the double-bond axis
+        encoded = {}
+        for (n, k), env in a.stereogenic_cis_trans.items():
+            i, j = a._stereo_cis_trans_centers[n]
+            if a.bond(i, j).stereo is None:
+                continue
+            g = _geometric_cis(a, n, k, env[0], env[1])
+            encoded[(i, j)] = g is not None and g == (a._translate_cis_trans_sign(n, k, env[0], env[1]) == _cis_sign())
+        drawn = all(encoded.values())
         # stereo: only centres without explicit hydrogen neighbours are claimed; and only if the drawing shows the labelled
         # double bonds as labelled (otherwise the record describes another stereoisomer, whose centres may not be stereogenic)
         sub = {n for n in a.stereogenic_tetrahedrons if a.atom(n).stereo is not None and
@@ -186,13 +209,23 @@ def compare_mol(a, b, rec, label, coords):
             if b._translate_tetrahedron_sign(n, env) != a._translate_tetrahedron_sign(n, env):
                 rec.fail('stereo', f'{label}: configuration of atom {n} inverted', sig='tetrahedral-sign')
                 return False
+        bare = None
         for (n, k), env in a.stereogenic_cis_trans.items():
             i, j = a._stereo_cis_trans_centers[n]
             if a.bond(i, j).stereo is None or any(a.atom(x).atomic_number == 1 for x in env if x is not None):
                 continue
-            if probe is None or probe.bond(i, j).stereo != a.bond(i, j).stereo:
+            if not encoded.get((i, j)):
                 rec.count('cis/trans label not encoded by the layout (clean2d draws double bonds trans): not asserted')
                 continue
+            if not drawn:
+                # another double bond is drawn differently from its label: this one is claimed only if it is stereogenic whatever
+                # the others are (constitutionally different substituents)
+                if bare is None:
+                    bare = a.copy()
+                    bare.clean_stereo()
+                if (n, k) not in bare.chiral_cis_trans and (k, n) not in bare.chiral_cis_trans:
+                    rec.count('cis/trans label depends on another double bond that the layout draws differently: not asserted')
+                    continue
             if b.bond(i, j).stereo is None:
                 rec.fail('stereo', f'{label}: cis/trans label of bond {i}-{j} lost', sig='cis-trans-lost')
                 return False
@@ -382,11 +415,22 @@ def check_case(case, rec):
                 from ..core import chython_frame
                 rec.fail('random-access', f'{label}: {type(e).__name__}: {e}', sig=f'{writer}:{type(e).__name__}@{chython_frame(e.__traceback__)}')
                 return
+            finally:
+                _drop_index_cache(p)
             if n != len(records) or idx != seq or sl != seq[1:]:
                 rec.fail('random-access', f'{label}: indexed access differs from sequential reading ({n} records)', sig=writer)
                 return
             rec.count('random-access-files')
     rec.sample(writer, text[:400], cap=2)
+
+
+def _drop_index_cache(path):
+    """the readers keep an index file chython_<base64(path)> in the system temp directory: remove the one of our scratch file"""
+    import base64
+    try:
+        os.remove(os.path.join(tempfile.gettempdir(), 'chython_' + base64.urlsafe_b64encode(os.path.abspath(path).encode()).decode()))
+    except OSError:
+        pass
 
 
 def record_fields_any(x):
